@@ -115,6 +115,7 @@ def build(flavour="asan", harness=(), cli=False, extra_defs="", tag=None, quiet=
     os.makedirs(os.path.join(bdir, "bin"), exist_ok=True)
     inc = "-I%s/libyara -I%s/libyara/include -I%s" % (REPO, REPO, REPO)
     mk = []
+    mk.append(".SUFFIXES:")          # no built-in implicit rules: make must never (re)generate anything inside the repo
     mk.append("CC=gcc")
     mk.append("CFLAGS=%s" % cflags)
     mk.append("INC=%s" % inc)
@@ -145,13 +146,13 @@ def build(flavour="asan", harness=(), cli=False, extra_defs="", tag=None, quiet=
                 mk.append("%s: %s\n\t$(CC) $(CFLAGS) $(INC) -I%s/cli -MMD -MP -c -o $@ $<" % (o, os.path.join(REPO, s), REPO))
             mk.append("bin/%s: %s libyara.a\n\t$(CC) $(CFLAGS) -o $@ %s libyara.a %s" % (prog, " ".join(cobjs), " ".join(cobjs), libs))
             targets.append("bin/" + prog)
-    mk.insert(3, "all: %s" % " ".join(targets))
+    mk.insert(4, "all: %s" % " ".join(targets))
     mk.append("-include $(wildcard o/*.d) $(wildcard bin/*.d)")
     text = "\n".join(mk) + "\n"
     mkpath = os.path.join(bdir, "Makefile.%s" % hashlib.sha1(text.encode()).hexdigest()[:10])
     with open(mkpath, "w") as f:
         f.write(text)
-    r = subprocess.run(["make", "-j%d" % (os.cpu_count() or 4), "-f", mkpath, "all"], cwd=bdir,
+    r = subprocess.run(["make", "-r", "-R", "-j%d" % (os.cpu_count() or 4), "-f", mkpath, "all"], cwd=bdir,
                        stdout=subprocess.PIPE, stderr=subprocess.STDOUT, text=True)
     if r.returncode != 0:
         raise BuildError("build of %s failed:\n%s" % (name, r.stdout[-6000:]))
